@@ -26,9 +26,11 @@ type Config struct {
 	UserOpsAtQuiescence bool
 	ForceAdoption       bool
 	FaultFree           bool
-	Hosted              bool // run a remote-phase-manager against a second cluster
-	Packages            bool // wire Package controllers
-	Templates           bool // wire ObjectTemplate controllers
+	Hosted              bool   // run a remote-phase-manager against a second cluster
+	Packages            bool   // wire Package controllers
+	Templates           bool   // wire ObjectTemplate controllers
+	SweepAt             int    // single-fault sweep: index of the request to fault (-1: count only)
+	SweepKind           string // err-before, lost-response, crash-before, crash-after, count
 }
 
 // AllFaultKinds lists the fault kinds the simulator can inject.
